@@ -768,18 +768,56 @@ def status_rule(ctx, facts, rid):
             v = ret[0] if ret else None
             r.check(v == ("const", gs[want], T + "GameStatus"), "GameStatus::from(%s)" % nm, "GameStatus::from(%s) = %s, expected %s" % (nm, show(v) if v else None, want),
                     site=ctx.site(fn), what="GameStatus::from(%s) = %s" % (nm, want))
-    # UciList: separator is a single space between moves
+    # UciList: the text for a chain of 0..3 moves is the moves' own texts joined by single spaces (the model of Display is evaluated with
+    # the chain's iterator as an input that may end at any step; whatever the shape of the loop)
     lst = [f for f in facts.fns.values() if f.def_path == "<owlchess::chain::UciList<'a, R> as core::fmt::Display>::fmt"]
     if not lst:
         r.anchor_missing("Display for UciList")
     else:
+        from .machine import Machine, NeedInput, Stuck, _last
+        from .teval import Unsupported, Panic
         fn = lst[0]
-        fb = FxBuilder(facts)
-        seps = []
-        for n, conds, _i in walk_tree(fb.tree(fn)):
-            if n[0] == "call" and any(a[0] == "str" for a in n[3]):
-                seps.append(([a[1] for a in n[3] if a[0] == "str"][0], [show(unstamp(c[0])) for c in conds]))
-        ok = len(seps) == 1 and seps[0][0] == " " and any("Ne 0" in c or "0 Ne" in c for c in seps[0][1])
+        ITER = "owlchess::chain::BaseMoveChain::<R>::iter"
+        tree = FxBuilder(facts, ai_mode=True, max_depth=12, max_blocks=400, stop={ITER}).tree(fn)
+
+        def oracle(name, args, m):
+            if _last(name) == "iter" and "BaseMoveChain" in name:
+                return ("iter", "input", "moves", 0, (("sym", "M"), None))
+            return None
+        seps = None
+        ok = True
+        n_runs = 0
+        try:
+            for n_moves in range(0, 4):
+                m = Machine(facts, tree, oracle=oracle)
+                given = [0]
+
+                class Feed(dict):
+                    def __contains__(self, k):
+                        return True
+
+                    def __getitem__(self, k):
+                        given[0] += 1
+                        return ("sym", "M") if given[0] <= n_moves else None
+                m.inputs = Feed()
+                res = m.start()
+                text = "".join(m.out)
+                steps = 0
+                while res[0] == "at" and steps < 50:
+                    m.out = []
+                    m._nreq = 0
+                    res = m.resume(res[1])
+                    text += "".join(m.out)
+                    steps += 1
+                want = " ".join(["\x02M\x02"] * n_moves)
+                n_runs += 1
+                if res[0] != "ret" or text != want:
+                    ok = False
+                    seps = "for %d moves it writes %r" % (n_moves, text.replace("\x02M\x02", "<move>"))
+                    break
+        except (Stuck, Unsupported, Panic) as ex:
+            ok = False
+            seps = "model not evaluable: %s" % str(ex)[:120]
         r.check(ok, "UciList/separator", "UciList writes separators %s; expected a single space before every move but the first" % seps, site=ctx.site(fn),
                 what="UciList separator ' ' (ASCII whitespace, split by push_uci_list)")
     lst = facts.instances(CHAIN_R + "push_uci_list")
